@@ -102,9 +102,11 @@ def main(argv=None):
         with open(args.replay) as fh:
             rep = json.load(fh)
         cases = [rep["case"]]
+        R.first_case = cases[0]
         run_cases(mod, cases, R)
     else:
         cases = mod.gen_cases(tier, seed)
+        R.first_case = cases[0] if cases else None
         if tier == "thorough":
             # several rounds of the generators (different seeds); identical cases (the fixed stratified part) are kept once
             seen = {json.dumps(c, sort_keys=True, default=str) for c in cases}
@@ -235,7 +237,8 @@ def write_evidence(mod, prop, tier, seed, R, wall, n_viol, known_seen, inconclus
             "evaluations": int(R.evaluations),
             "distinct_nontrivial": len(R.nontrivial),
             "rule": getattr(mod, "RULE", ""),
-            "samples": R.samples or [],
+            # (a run in which no case met the check's own sampling rule still shows what an evaluated case looks like)
+            "samples": R.samples or [{"note": "no case met the sampling rule of this check in this run; the first case evaluated", "case": jsonable(R.first_case)}],
             "monitor_hits": dict(sorted(R.counters.items())),
             "classes": dict(sorted(R.classes.items())),
             "oracle_skips": dict(sorted(R.skips.items())),
